@@ -112,7 +112,16 @@ def gen_headers(rng, kind, n, algs):
                 h[nm] = rng.choice(JSON_VALUES)
         if rng.random() < 0.3:
             present = [k for k in h]
-            crit = [rng.choice(present)] if present and rng.random() < 0.6 else rng.choice([["nope"], [], ["b64"], "alg", None, [1]])
+            r = rng.random()
+            if present and r < 0.3:
+                crit = [rng.choice(present)]
+            elif present and r < 0.7:
+                # several names: all present, or present ones mixed with absent ones in any position, duplicates
+                crit = [rng.choice(present) for _ in range(rng.randrange(1, 4))]
+                for _ in range(rng.randrange(0, 3)):
+                    crit.insert(rng.randrange(len(crit) + 1), rng.choice(["exp", "nope", "b64", "kid", "typ", "zip"]))
+            else:
+                crit = rng.choice([["nope"], [], ["b64"], "alg", None, [1], ["nope", "exp"], ["alg", 1]])
             h["crit"] = crit
         if kind == "jws7797" and rng.random() < 0.5:
             h["b64"] = rng.choice([True, False, 0, "false"])
